@@ -511,7 +511,6 @@ func fillsReturnedSlice(e ssa.Value, r *ssa.Return, s *ssax.PathState) bool {
 	return false
 }
 
-
 // nonNilWhenArgNonNil: every return of callee hands back a definitely non-nil error, except returns that are
 // dominated by "parameter ai == nil" (the wrapper idiom: if err == nil { return nil }; return &T{…, Err: err}).
 func nonNilWhenArgNonNil(callee *ssa.Function, ai int) bool {
